@@ -20,6 +20,7 @@ type pipeCase struct {
 	FanOut    int    `json:"fan_out"`
 	Cap       uint   `json:"cap"`
 	FeedFirst bool   `json:"feed_first,omitempty"` // the whole stream is added and the input closed before the pipeline is built
+	Elem      string `json:"elem,omitempty"`       // element type of the queues (see queueCodec in queue_test.go)
 }
 
 // counter is the caller's wait group.  Under the cooperative scheduler one goroutine runs at a time.
@@ -50,20 +51,33 @@ func genPipe(maxLen int) func(core.Source) pipeCase {
 			FanOut: 2 + s.Choose(2, "fanout"), Cap: uint(1 + s.Choose(2, "cap"))}
 		// a short stream fits into the input queue: it may be complete and closed before Fork/Split/Join is called
 		c.FeedFirst = uint(c.Length) <= c.Cap && s.Choose(3, "feed-first") == 0
+		c.Elem = core.Pick(s, queueElems, "elem")
 		return c
 	}
 }
 
 func execPipe(c pipeCase, src core.Source) (res core.Result) {
+	switch c.Elem {
+	case "any":
+		return execPipeE(c, src, lib.CdAny)
+	case "anynil":
+		return execPipeE(c, src, shifted(lib.CdAny))
+	case "string":
+		return execPipeE(c, src, shifted(lib.CdString))
+	}
+	return execPipeE(c, src, lib.CdInt)
+}
+
+func execPipeE[E any](c pipeCase, src core.Source, cd lib.Codec[E]) (res core.Result) {
 	n := lib.Notation()
-	Q := col.Queue[int](n)
+	Q := col.Queue[E](n)
 	input := Q.MakeWithCapacity(c.Cap)
 	group := &counter{}
 	values := make([]int, c.Length)
 	for i := range values {
 		values[i] = i + 1
 	}
-	var outputs []col.QueueLike[int]
+	var outputs []col.QueueLike[E]
 	received := map[int][]int{}
 	afterClose := map[int]string{}
 	s := sched.New(src, false)
@@ -74,7 +88,7 @@ func execPipe(c pipeCase, src core.Source) (res core.Result) {
 	s.Go("main", func() {
 		if c.FeedFirst {
 			for _, v := range values {
-				input.AddValue(v)
+				input.AddValue(cd.Enc(v))
 			}
 			input.CloseQueue()
 		}
@@ -85,7 +99,7 @@ func execPipe(c pipeCase, src core.Source) (res core.Result) {
 			outputs = Q.Split(group, input, uint(c.FanOut)).AsArray()
 		default:
 			mid := Q.Split(group, input, uint(c.FanOut))
-			outputs = []col.QueueLike[int]{Q.Join(group, mid)}
+			outputs = []col.QueueLike[E]{Q.Join(group, mid)}
 		}
 		// the helpers must be registered with the caller's wait group before the function returns:
 		// otherwise a Wait() right after the call can return before a helper has even started
@@ -93,7 +107,7 @@ func execPipe(c pipeCase, src core.Source) (res core.Result) {
 		if !c.FeedFirst {
 			s.Go("feeder", func() {
 				for _, v := range values {
-					input.AddValue(v)
+					input.AddValue(cd.Enc(v))
 				}
 				input.CloseQueue()
 			})
@@ -106,14 +120,14 @@ func execPipe(c pipeCase, src core.Source) (res core.Result) {
 					if !ok {
 						break
 					}
-					received[i] = append(received[i], v)
+					received[i] = append(received[i], cd.Dec(v))
 					if len(received[i]) > c.Length+2 {
 						break // something is duplicating values; stop reading
 					}
 				}
 				// nothing is delivered after closure
 				if v, ok := out.RemoveHead(); ok {
-					afterClose[i] = fmt.Sprintf("RemoveHead returned (%d, true) after it had reported the queue closed", v)
+					afterClose[i] = fmt.Sprintf("RemoveHead returned (%v, true) after it had reported the queue closed", v)
 				}
 			})
 		}
@@ -182,6 +196,9 @@ func execPipe(c pipeCase, src core.Source) (res core.Result) {
 	if c.FeedFirst {
 		res.Classes = append(res.Classes, "input-closed-before-the-pipeline-is-built")
 	}
+	if c.Elem != "" {
+		res.Classes = append(res.Classes, "elem-"+c.Elem)
+	}
 	if r.AnyBlocked {
 		res.Classes = append(res.Classes, "some-call-blocked")
 	}
@@ -193,9 +210,13 @@ func TestC06(t *testing.T) {
 	defer r.End()
 	// every schedule of the smallest pipelines, one bounded enumeration per configuration (the schedule
 	// space explodes quickly: the bound keeps the tier's budget, exhaustive=false is reported when it is hit)
-	for _, cfg := range []pipeCase{{"Fork", 0, 2, 1, false}, {"Split", 0, 2, 1, false}, {"Split", 1, 2, 1, false}, {"Fork", 1, 2, 1, false}, {"Split", 1, 3, 1, false}, {"SplitJoin", 0, 2, 1, false}, {"SplitJoin", 1, 2, 1, false}} {
+	for _, cfg := range []pipeCase{{"Fork", 0, 2, 1, false, ""}, {"Split", 0, 2, 1, false, ""}, {"Split", 1, 2, 1, false, ""}, {"Fork", 1, 2, 1, false, ""}, {"Split", 1, 3, 1, false, ""}, {"SplitJoin", 0, 2, 1, false, ""}, {"SplitJoin", 1, 2, 1, false, ""},
+		{"Fork", 1, 2, 1, false, "anynil"}, {"Split", 1, 2, 1, false, "anynil"}, {"SplitJoin", 1, 2, 1, false, "anynil"}} {
 		cfg := cfg
 		name := fmt.Sprintf("all-schedules-%s-len%d-fan%d", cfg.Topology, cfg.Length, cfg.FanOut)
+		if cfg.Elem != "" {
+			name += "-" + cfg.Elem
+		}
 		core.DFS(r, core.Check[pipeCase]{Name: name, Bounded: true, Gen: func(core.Source) pipeCase { return cfg }, Exec: execPipe}, r.N(2500, 100000))
 	}
 	core.Rapid(r, core.Check[pipeCase]{Name: "sampled-schedules", Gen: genPipe(r.N(4, 6)), Exec: execPipe}, r.N(2500, 40000))
